@@ -65,6 +65,15 @@ def setitem2d(I, m, idx, value):
         old = m.snap()
         if isinstance(sel, SArray) and sel.kind == "bool" and m.rowmask is None:
             ss = sel.snap()
+            if isinstance(value, SCompressed):
+                # m[sel, c] = <selection with the same mask>: row r gets the value computed for row r
+                if not A.same_mask(I, value.maskfn, lambda r: V.bterm(ss(r))):
+                    raise Unsupported("store of a selection with a different mask")
+                vf = value.fn
+                m.write(I, lambda r, cc: A.ite_val(V.bterm(ss(r)), vf(r), old(r, cc)) if cc == c else old(r, cc))
+                return
+            if A.is_arraylike(value):
+                raise Unsupported("2-D store of an array value")
             m.write(I, lambda r, cc: A.ite_val(V.bterm(ss(r)), value, old(r, cc)) if cc == c else old(r, cc))
             return
         if isinstance(sel, SCompressed) and sel.kind == "bool" and m.rowmask is not None:
@@ -128,6 +137,19 @@ def install(I):
             return SArray(x.nrows, row, "int" if x.kind == "bool" else "real")
         return old_sum(I, x, **k)
     L["numpy.sum"] = np_sum
+
+    def any2d(I, self, axis=None, **k):
+        if axis != 1:
+            raise Unsupported("2-D any along this axis")
+        f = self.snap()
+
+        def row(r):
+            return SBool(z3.Or(*[V.bterm(f(r, c)) for c in range(self.ncols)]))
+        if self.rowmask is not None:
+            return SCompressed(row, self.rowmask, self.nrows, "bool")
+        return SArray(self.nrows, row, "bool")
+    L["ndarray2d.any"] = any2d
+    L["ndarray2d.sum"] = lambda I, self, axis=None, **k: np_sum(I, self, axis=axis)
 
     old_array = L["numpy.array"]
 
